@@ -7,7 +7,8 @@
 (*   kind "a"  a batch of run-id expressions; every step is one call of    *)
 (*             db.basis.SearchFacade._scrub (string form, alternative      *)
 (*             string form, list-of-objects form)                          *)
-(*   kind "b"  one database (real shelve tables filled with util.append),  *)
+(*   kind "b"  one database (real shelve tables filled with util.append;   *)
+(*             stored run ids = model run + offset, see Search!ShiftDb),   *)
 (*             every step is a find / page walk / facet executed through   *)
 (*             dawgie.db.search() and through the front-end wrappers       *)
 (* Every step is judged by the declarative operators (Den, Match, FindOK,  *)
@@ -35,10 +36,12 @@ HasRange(q) == q.hasrun /\ \E i \in DOMAIN q.run : q.run[i].k = "r"
 (* per step: failing property clauses, drift flag, vacuity counters        *)
 (* counters: <<scrub changed, find non-empty, find by range non-empty,     *)
 (*            find inner window non-empty, walk of >= 2 non-empty pages,   *)
-(*            facet non-empty>>                                            *)
-Zero == <<0, 0, 0, 0, 0, 0>>
-Unit(i) == [j \in 1..6 |-> IF j = i THEN 1 ELSE 0]
-Add(x, y) == [j \in 1..6 |-> x[j] + y[j]]
+(*            facet non-empty, find/walk returning run ids of different    *)
+(*            decimal widths (numeric order # order of the strings)>>      *)
+Zero == <<0, 0, 0, 0, 0, 0, 0>>
+Unit(i) == [j \in 1..7 |-> IF j = i THEN 1 ELSE 0]
+Add(x, y) == [j \in 1..7 |-> x[j] + y[j]]
+MixedWidth(M) == \E x, y \in M : Width(x.run) # Width(y.run)
 
 EvalScrub(r) ==
     LET e == r.args.e
@@ -63,7 +66,8 @@ EvalFind(t, r) ==
      drift |-> ~(r.obs.items = m.items /\ r.obs.total = m.total /\ r.obs.fe_items = m.items /\ r.obs.fe_total = m.total),
      cnt   |-> Add(IF n > 0 THEN Unit(2) ELSE Zero,
                Add(IF n > 0 /\ HasRange(q) THEN Unit(3) ELSE Zero,
-                   IF i > 0 /\ L # NOLIMIT /\ i < n THEN Unit(4) ELSE Zero))]
+               Add(IF i > 0 /\ L # NOLIMIT /\ i < n THEN Unit(4) ELSE Zero,
+                   IF i < n /\ MixedWidth(M) THEN Unit(7) ELSE Zero)))]
 
 EvalPages(t, r) ==
     LET q == QOf(r.args.q)
@@ -79,7 +83,8 @@ EvalPages(t, r) ==
                                   /\ \A p \in DOMAIN r.obs.pages :
                                         FindOK(M, (p - 1) * L, L, r.obs.pages[p], r.obs.totals[p])),
      drift |-> ~(\A p \in DOMAIN r.obs.pages : r.obs.pages[p] = ImplPage(T, pks, (p - 1) * L, L).items),
-     cnt   |-> IF Cardinality(M) > L THEN Unit(5) ELSE Zero]
+     cnt   |-> Add(IF Cardinality(M) > L THEN Unit(5) ELSE Zero,
+                   IF MixedWidth(M) THEN Unit(7) ELSE Zero)]
 
 EvalFacet(t, r) ==
     LET q == QOf(r.args.q)
